@@ -10,6 +10,7 @@ import (
 	"io"
 	"net/http"
 	"sort"
+	"strings"
 
 	"github.com/btcsuite/btcd/btcec/v2"
 	"github.com/btcsuite/btcd/btcec/v2/schnorr"
@@ -242,10 +243,34 @@ func (w *World) NewOutput(amount uint64, id, secret string) *HOutput {
 	if err != nil {
 		harnessf("blind: %v", err)
 	}
+	if plain := len(secret) == 64; plain && w.RespellPct > 0 && !w.S.Quiet && w.S.Tape.Chance("out.respell", w.RespellPct, 100) {
+		// another encoding of the same point, as a foreign wallet implementation might send it
+		B_ = respellPoint(B_, w.S.Tape.Choose("out.respell.kind", 3))
+		w.S.Probe("output_point_respelled")
+	}
 	o := &HOutput{Amount: amount, ID: id, B_: B_, Secret: secret, R: r}
 	w.Outputs[B_] = o
 	w.OutOrder = append(w.OutOrder, B_)
 	return o
+}
+
+// respellPoint: the same curve point in another accepted spelling: upper-case hex (0), uncompressed
+// SEC1 encoding (1), upper-case prefix-preserving mixed case (2).
+func respellPoint(h string, v int) string {
+	b, err := hex.DecodeString(h)
+	if err != nil {
+		return h
+	}
+	switch v {
+	case 0:
+		return strings.ToUpper(h)
+	case 1:
+		if pk, err := btcec.ParsePubKey(b); err == nil {
+			return hex.EncodeToString(pk.SerializeUncompressed())
+		}
+		return h
+	}
+	return h[:2] + strings.ToUpper(h[2:34]) + h[34:]
 }
 
 // NewLockedOutputs: outputs whose secrets are NUT-10 spending conditions (P2PK, or HTLC when htlc)
